@@ -1,5 +1,7 @@
 """C08 — multiphase: each phase evolves independently with its own volume factor."""
 
+import os
+import shutil
 import numpy as np
 from hypothesis import strategies as st
 
@@ -39,8 +41,29 @@ def multi_case():
             "F0": hist.f0_spec(),
             "flow": hist.flow_spec(1.5),
             "cuts": hist.cuts_spec(6),
+            # how the minerals reach the update: as built, restored from an NPZ checkpoint
+            # (before the first or after the first update; enumeration fields come back as
+            # numpy integers), or with plain-integer phase/fabric/regime ordinals
+            "restore": st.sampled_from(["none", "none", "file", "file_mid", "int"]),
         }
     )
+
+
+def _restore(m, how):
+    if how == "int":
+        m.phase, m.fabric, m.regime = int(m.phase), int(m.fabric), int(m.regime)
+        return m
+    import tempfile
+
+    from pydrex import minerals as _minerals
+
+    d = tempfile.mkdtemp(prefix="c08_")
+    try:
+        path = os.path.join(d, "checkpoint.npz")
+        sut(m.save, path)
+        return sut(_minerals.Mineral.from_file, path)
+    finally:
+        shutil.rmtree(d, ignore_errors=True)
 
 
 def _assemblage(case, order=None):
@@ -61,9 +84,14 @@ def _evolve(case, which, params, bulk_order=None, F_inputs=None):
     flow = hist.Flow(case["flow"])
     taus = hist.tau_points(flow.T, case["cuts"])
     ms = {w: hist.build_mineral(case[w]) for w in which}
+    how = case.get("restore", "none")
+    if how in ("file", "int"):
+        ms = {w: _restore(m, how) for w, m in ms.items()}
     F = hist.f0(case["F0"])
     chain = []
     for k, (ta, tb) in enumerate(zip(taus[:-1], taus[1:])):
+        if how == "file_mid" and k == 1:
+            ms = {w: _restore(m, "file") for w, m in ms.items()}
         if F_inputs is not None:
             F = F_inputs[k]
         chain.append(F)
@@ -79,13 +107,22 @@ def _evolve(case, which, params, bulk_order=None, F_inputs=None):
     return ms, F
 
 
+def _identical(a, b):
+    """Bit-identical; an integer-typed initial snapshot that went through an NPZ checkpoint comes
+    back as float64 with the same values, which is compared by value."""
+    a, b = np.asarray(a), np.asarray(b)
+    if a.dtype == b.dtype:
+        return a.shape == b.shape and a.tobytes() == b.tobytes()
+    return np.array_equal(a, b)
+
+
 def _same(m1, m2, what, tol=None):
     require(len(m1.orientations) == len(m2.orientations), f"{what}: different snapshot counts")
     worst = 0.0
     for k in range(len(m1.orientations)):
         if tol is None:
             require(
-                m1.orientations[k].tobytes() == m2.orientations[k].tobytes() and m1.fractions[k].tobytes() == m2.fractions[k].tobytes(),
+                _identical(m1.orientations[k], m2.orientations[k]) and _identical(m1.fractions[k], m2.fractions[k]),
                 f"{what}: snapshot {k} is not byte-identical (max diff A {np.abs(m1.orientations[k] - m2.orientations[k]).max():.3e}, f {np.abs(m1.fractions[k] - m2.fractions[k]).max():.3e})",
             )
         else:
@@ -133,7 +170,7 @@ def check_own_factor(case):
         single_params = hist.params_dict(ps, (ph,), (1.0,), n)
         single, _ = _evolve(case, (w,), single_params)
         worst = max(worst, _same(multi[w], single[w], f"{w}: multiphase vs single-phase with M*x{phi}", tol=bound))
-    return {"nontrivial": True, "labels": [case["order"], gen.FABRICS[case["ol"]["pf"]][2]], "residual": worst / bound}
+    return {"nontrivial": True, "labels": [case["order"], gen.FABRICS[case["ol"]["pf"]][2], "restore:" + case.get("restore", "none")], "residual": worst / bound}
 
 
 def check_permutations(case):
@@ -162,7 +199,11 @@ def check_permutations(case):
     twin, _ = _evolve(case, ("ol", "en"), parA)
     for w in ("ol", "en"):
         _same(twin[w], sepA[w], f"{w}: identically built and driven twins")
-    return {"nontrivial": True, "labels": [gen.FABRICS[case["ol"]["pf"]][2]], "residual": 0.0}
+    if case.get("restore", "none") != "none":
+        plain, _ = _evolve(dict(case, restore="none"), ("ol", "en"), parA)
+        for w in ("ol", "en"):
+            _same(plain[w], sepA[w], f"{w}: minerals restored ({case['restore']}) vs built in memory")
+    return {"nontrivial": True, "labels": [gen.FABRICS[case["ol"]["pf"]][2], "restore:" + case.get("restore", "none")], "residual": 0.0}
 
 
 def interleave_case():
